@@ -2,6 +2,8 @@
 
 package psatoken
 
+import "unicode/utf8"
+
 // C10: emitted CBOR is exactly the profile's wire format.
 // C09: CBOR encode/decode is the identity on claims and stable on bytes.
 // Both over the L3 item model (zz_verif_l3.go).
@@ -170,9 +172,8 @@ func VerifC10() {
 	ndAssert("c10-wire-format-built", wireMatches(verifParseItem(buf), w))
 	// the same claims obtained by DECODING that encoding emit the same wire format
 	dec, derr := DecodeClaimsFromCBOR(buf)
-	ndAssert("c10-own-output-decodes", derr == nil)
 	if derr != nil {
-		return
+		return // whether the own output decodes is C09's subject (known finding C09-text-not-utf8)
 	}
 	buf2, err2 := ValidateAndEncodeClaimsToCBOR(dec)
 	ndAssert("c10-wire-format-decoded", err2 == nil && wireMatches(verifParseItem(buf2), w))
@@ -204,9 +205,31 @@ func itemEq(a, b *vItem) bool {
 	return true
 }
 
+// c09textOK: every text claim of the generated set is valid UTF-8
+func c09textOK(g1 *genP1, g2 *genP2) bool {
+	var sw *genSws
+	ok := true
+	if g1 != nil {
+		sw = g1.sw
+		ok = utf8.ValidString(g1.vsi) && utf8.ValidString(g1.certRef)
+	} else {
+		sw = g2.sw
+		ok = utf8.ValidString(g2.vsi) && utf8.ValidString(g2.certRef)
+	}
+	for _, c := range sw.comps {
+		ok = ok && utf8.ValidString(c.mt) && utf8.ValidString(c.ver) && utf8.ValidString(c.desc)
+	}
+	return ok
+}
+
 func VerifC09() {
 	l3install()
-	c, _, _, _ := verifGenValid()
+	c, _, g1, g2 := verifGenValid()
+	if ndParam("kf.text-not-utf8", 0) == 1 {
+		// known finding C09-text-not-utf8 (known_findings.json): its region is assumed away,
+		// everything else is still decided
+		ndAssume(c09textOK(g1, g2))
+	}
 	buf, err := EncodeClaimsToCBOR(c)
 	ndAssert("c09-valid-claims-encode", err == nil && !verifL3.err)
 	if err != nil {
